@@ -29,7 +29,42 @@ def gen_case(rs, tier, prop="C06"):
         return None
     knobs = common.draw_knobs(krng)
     knobs["rng_mode"] = "random"       # exhaustion needs a script that can reach every key
-    return {"design": ast, "knobs": knobs, "tier": tier}
+    case = {"design": ast, "knobs": knobs, "tier": tier}
+    prng = W.stream(rs, "prelude")
+    if prng.random() < 0.3:
+        # history: the same process sampled from a sibling design first (same shape, other level weights), the way a user
+        # tweaks weights and samples again; whatever that call leaves behind must not change the result of this one
+        sib = dast.clone(ast)
+        cands = [(fi, li) for fi, f in enumerate(sib["factors"]) if f["kind"] in ("basic", "derived") for li in range(len(f["levels"]))]
+        def getw(f, li):
+            return f["levels"][li][1] if f["kind"] == "basic" else f["levels"][li].get("weight", 1)
+
+        def setw(f, li, v):
+            if f["kind"] == "basic":
+                f["levels"][li][1] = v
+            else:
+                f["levels"][li]["weight"] = v
+        heavy = [(fi, li) for fi, li in cands if getw(sib["factors"][fi], li) >= 2]
+        if heavy and prng.random() < 0.7:
+            # same number of combinations and the same round length, other per-combination counts: move one unit of
+            # weight to another level of the same factor (or rotate the factor's weights)
+            fi, li = prng.choice(heavy)
+            f = sib["factors"][fi]
+            if prng.random() < 0.3:
+                ws = [getw(f, j) for j in range(len(f["levels"]))]
+                ws = ws[1:] + ws[:1]
+                for j, v in enumerate(ws):
+                    setw(f, j, v)
+            else:
+                lj = prng.choice([j for j in range(len(f["levels"])) if j != li])
+                setw(f, li, getw(f, li) - 1)
+                setw(f, lj, getw(f, lj) + 1)
+        else:
+            for _ in range(prng.choice([1, 1, 2])):
+                fi, li = prng.choice(cands)
+                setw(sib["factors"][fi], li, prng.choice([1, 2, 3]))
+        case["prelude"] = {"design": sib, "n": prng.choice([1, 2, 5]), "strategy": prng.choice(["RandomGen", "RandomGen", "IterateSATGen"])}
+    return case
 
 
 def estimate_keys(m):
@@ -79,6 +114,19 @@ def run_exhaust(case, need_ref=True):
     w = W.SimWorld(case["run_seed"], case["knobs"])
     w.__enter__()
     try:
+        pre = case.get("prelude")
+        if pre:
+            pblk, _, pexc = common.construct(w, pre["design"])
+            if pexc is None:
+                w.draw_cap = 200000
+                w.peer_calls_cap = 50
+                try:
+                    with common.time_limit(4):
+                        common.synth(w, pblk, pre["strategy"], pre["n"])
+                    w.count("prelude-call")
+                except (common.InnerTimeout, W.HarnessCap):
+                    pass
+                w.rng.draws = 0
         blk, b, exc = common.construct(w, ast)
         if exc is not None:
             return common.result_base(w, outcome="skip", reason="constructor-refused:" + type(exc).__name__), None
@@ -166,4 +214,8 @@ def run_case(case):
 
 
 def shrink_candidates(case):
+    if case.get("prelude"):
+        c = dict(case)
+        c["prelude"] = None
+        yield c
     yield from common.shrink_case(case)
